@@ -482,7 +482,39 @@ def rule_h(ctx, out):
     C15.rule_f(ctx, out)
 
 
+def rule_i(ctx, out):
+    """Pseudo-push operands go through the translation untouched.  The front-end names a PUSH [tag] / PUSH #[$] / PUSH [$] / PUSH data /
+    PUSHIMMUTABLE / PUSHLIB by its operand (`pushtag(<n>)` ...), and the rebuilt block gets its operand back from that name: an operand
+    that is cut, masked or re-based on the way (a sub-assembly tag is (sub_id+1)*2^64 + tag) comes back as another item.
+    translateYulOpcodes is interpreted on small and on 65-bit operands: the number in the emitted term is the operand."""
+    import re as _re
+    from ..core.interp import ModuleInterp
+    from ..core.minieval import Unsupported, Raised
+    f = ctx.func("sfs_generator.ir_block.translateYulOpcodes")
+    mi = ModuleInterp(ctx, max_steps=20000, extern={"get_new_variable": lambda idx: (f"s({idx + 1})", idx + 1), "get_consume_variable": lambda idx: (f"s({idx})", idx - 1)})
+    n = 0
+    for op in ("PUSH [tag]", "PUSH #[$]", "PUSH [$]", "PUSH data", "PUSHIMMUTABLE", "PUSHLIB"):
+        for v in ("1", "12", "18446744073709551617", "36893488147419103233"):
+            try:
+                got = mi.call(f, op, v, 3)
+            except (Raised, Unsupported) as e:
+                raise AnalysisError(f"translateYulOpcodes cannot be evaluated on {op} {v}: {e}")
+            text = got[0] if isinstance(got, tuple) else got
+            nums = _re.findall(r"\((\d+)\)", str(text).split("=", 1)[-1])
+            m = nums[-1] if nums else None
+            n += 1
+            ok = m is not None and int(m) in (int(v, 16), int(v))
+            if ok:
+                out.ok({"item": f"{op} {v}", "term": str(text)})
+            else:
+                out.bad(f"pseudo-push-operand-changed-by-translation:{op.replace(' ', '')}", f"translateYulOpcodes turns `{op} {v}` into `{text}`: the operand in the term "
+                        f"is not the item's operand, and the rebuilt block carries the term's", where(f))
+    if n < 24:
+        raise AnalysisError(f"only {n} pseudo pushes evaluated")
+
+
 RULES = [
+    ("C09.i", "pseudo-push operands pass through the translation unchanged (65-bit tags included)", 24, rule_i),
     ("C09.h", "auxiliary data, data sections (nested assemblies included) and source lists survive parse and serialise (shared with C15.f)", 32, rule_h),
     ("C09.e", "containers handed out per loop iteration are fresh", 5, rule_e),
     ("C09.a", "item field agreement (parser/serialiser)", 25, rule_a),
